@@ -153,11 +153,34 @@ theorem walk_ordered (segs : List Seg) : ∀ (parent : Span),
       have := ih _ hf' x h
       omega
 
-/-- offsets strictly increase and stay inside `[lo, len)` -/
+theorem utf8Len_pos (c : Nat) : 1 ≤ utf8Len c := by
+  unfold utf8Len; split <;> (try split) <;> (try split) <;> omega
+theorem utf8Len_le (c : Nat) : utf8Len c ≤ 4 := by
+  unfold utf8Len; split <;> (try split) <;> (try split) <;> omega
+theorem utf8Len_1 {c : Nat} (h : c < 128) : utf8Len c = 1 := by simp [utf8Len, h]
+theorem utf8Len_2 {c : Nat} (h1 : 128 ≤ c) (h2 : c < 2048) : utf8Len c = 2 := by
+  have : ¬ c < 128 := by omega
+  simp [utf8Len, this, h2]
+theorem utf8Len_3 {c : Nat} (h1 : 2048 ≤ c) (h2 : c < 65536) : utf8Len c = 3 := by
+  have : ¬ c < 128 := by omega
+  have : ¬ c < 2048 := by omega
+  simp [utf8Len, *]
+theorem utf8Len_4 {c : Nat} (h1 : 65536 ≤ c) : utf8Len c = 4 := by
+  have : ¬ c < 128 := by omega
+  have : ¬ c < 2048 := by omega
+  have : ¬ c < 65536 := by omega
+  simp [utf8Len, *]
+/-- a decoded character is never shorter than `len_utf8` of its code point (equal for
+    well-formed UTF-8, possibly longer for an overlong form) -/
+theorem utf8Len_le_of_lt {c k : Nat} (hk : 1 ≤ k)
+    (h2 : 2 ≤ k ∨ c < 128) (h3 : 3 ≤ k ∨ c < 2048) (h4 : 4 ≤ k ∨ c < 65536) : utf8Len c ≤ k := by
+  unfold utf8Len; split <;> (try split) <;> (try split) <;> omega
+
+/-- offsets strictly increase and stay inside `[lo, len)`; the `len_utf8` of a character fits -/
 
 def PosOK (len : Nat) : Nat → List (Nat × Nat) → Prop
   | _, [] => True
-  | lo, (p, _) :: rest => lo ≤ p ∧ p < len ∧ PosOK len (p + 1) rest
+  | lo, (p, c) :: rest => lo ≤ p ∧ p < len ∧ p + utf8Len c ≤ len ∧ PosOK len (p + 1) rest
 
 theorem PosOK_mono {len : Nat} (cs : List (Nat × Nat)) : ∀ {lo lo' : Nat}, lo' ≤ lo → PosOK len lo cs → PosOK len lo' cs := by
   cases cs with
@@ -166,7 +189,7 @@ theorem PosOK_mono {len : Nat} (cs : List (Nat × Nat)) : ∀ {lo lo' : Nat}, lo
     intro lo lo' h hp
     obtain ⟨p, c⟩ := x
     simp only [PosOK] at hp ⊢
-    exact ⟨by omega, hp.2.1, hp.2.2⟩
+    exact ⟨by omega, hp.2.1, hp.2.2.1, hp.2.2.2⟩
 
 theorem PosOK_cast {len len' lo lo' : Nat} {cs : List (Nat × Nat)} (h1 : len = len') (h2 : lo' ≤ lo)
     (h : PosOK len lo cs) : PosOK len' lo' cs := by
@@ -175,7 +198,7 @@ theorem PosOK_cast {len len' lo lo' : Nat} {cs : List (Nat × Nat)} (h1 : len = 
 theorem posOK_charIndicesFrom (pos : Nat) (src : List Nat) :
     PosOK (pos + src.length) pos (charIndicesFrom pos src) := by
   fun_induction charIndicesFrom pos src <;> simp_all [PosOK]
-  all_goals (refine PosOK_cast ?_ ?_ ‹_› <;> omega)
+  all_goals (refine ⟨?_, PosOK_cast ?_ ?_ ‹_›⟩ <;> first | omega | (apply utf8Len_le_of_lt <;> omega))
 
 theorem nextIndex_bounds {len lo : Nat} {cs : List (Nat × Nat)} (h : PosOK len lo cs) (hl : lo ≤ len) :
     lo ≤ nextIndex len cs ∧ nextIndex len cs ≤ len := by
@@ -207,7 +230,8 @@ theorem scanString_label_range (len start : Nat) (hs : start < len) :
     intro st lo e hp hl hst h
     obtain ⟨p, c⟩ := x
     simp only [PosOK] at hp
-    obtain ⟨h1, h2, h3⟩ := hp
+    obtain ⟨h1, h2, h2u, h3⟩ := hp
+    have hu1 := utf8Len_pos c
     have hn := nextIndex_bounds h3 (by omega)
     cases st with
     | normal =>
@@ -300,7 +324,7 @@ theorem PosOK_tail {len lo : Nat} {cs : List (Nat × Nat)} (h : PosOK len lo cs)
   | cons x rest =>
     obtain ⟨p, c⟩ := x
     simp only [PosOK] at h
-    exact PosOK_mono rest (Nat.zero_le _) h.2.2
+    exact PosOK_mono rest (Nat.zero_le _) h.2.2.2
 
 /-- `quoted_literal` has a single error, pointing at the literal's first character -/
 theorem scanQuoted_error (len start : Nat) : ∀ (cs : List (Nat × Nat)) (b : Bool) (e : LexErr),
@@ -329,7 +353,7 @@ theorem charIndicesFrom_ascii (pos b0 : Nat) (rest : List Nat) (h : b0 < 128) :
 def Chain (src : List Nat) : Nat → List (Nat × Nat) → Prop
   | lo, [] => lo = src.length
   | lo, (p, c) :: rest =>
-    p = lo ∧ isCharBoundary src p = true ∧ ∃ w, 1 ≤ w ∧ (c < 128 → w = 1) ∧ Chain src (p + w) rest
+    p = lo ∧ isCharBoundary src p = true ∧ Chain src (p + utf8Len c) rest
 
 theorem boundary_len (src : List Nat) : isCharBoundary src src.length = true := by
   unfold isCharBoundary
@@ -362,18 +386,20 @@ theorem chain_charIndicesFrom (pos : Nat) (suf : List Nat) :
   | case2 pos b0 rest h ih =>
     intro pre hp hw
     unfold wfUtf8 at hw; simp only [h, if_true] at hw
-    refine ⟨rfl, ?_, 1, Nat.le_refl _, fun _ => rfl, ?_⟩
+    refine ⟨rfl, ?_, ?_⟩
     · rw [← hp]; exact boundary_lead pre b0 rest (not_cont_of_lt h)
     · have := ih (pre ++ [b0]) (by simp [hp]) hw
+      rw [utf8Len_1 h]
       simpa [List.append_assoc] using this
   | case3 pos b0 h1 h2 b1 r ih =>
     intro pre hp hw
     have h3 : ¬ b0 < 192 := by
       intro h; (unfold wfUtf8 at hw; simp [h1, h] at hw)
     unfold wfUtf8 at hw; simp only [h1, h2, h3, if_true, if_false, Bool.and_eq_true, decide_eq_true_eq] at hw
-    refine ⟨rfl, ?_, 2, by omega, fun hc => by omega, ?_⟩
+    refine ⟨rfl, ?_, ?_⟩
     · rw [← hp]; exact boundary_lead pre b0 _ (not_cont_of_ge (by omega))
     · have := ih (pre ++ [b0, b1]) (by simp [hp]) hw.2
+      rw [utf8Len_2 (by omega) (by omega)]
       simpa [List.append_assoc] using this
   | case4 pos b0 h1 h2 =>
     intro pre hp hw
@@ -384,9 +410,10 @@ theorem chain_charIndicesFrom (pos : Nat) (suf : List Nat) :
     intro pre hp hw
     have h4 : ¬ b0 < 192 := by omega
     unfold wfUtf8 at hw; simp only [h1, h2, h3, h4, if_true, if_false, Bool.and_eq_true, decide_eq_true_eq] at hw
-    refine ⟨rfl, ?_, 3, by omega, fun hc => by omega, ?_⟩
+    refine ⟨rfl, ?_, ?_⟩
     · rw [← hp]; exact boundary_lead pre b0 _ (not_cont_of_ge (by omega))
     · have := ih (pre ++ [b0, b1, b2]) (by simp [hp]) hw.2
+      rw [utf8Len_3 (by omega) (by omega)]
       simpa [List.append_assoc] using this
   | case6 pos b0 rest h1 h2 h3 hne =>
     intro pre hp hw
@@ -404,9 +431,10 @@ theorem chain_charIndicesFrom (pos : Nat) (suf : List Nat) :
     have h5 : b0 < 248 := by
       apply Classical.byContradiction; intro h; (unfold wfUtf8 at hw; simp [h1, h2, h3, h4, h] at hw)
     unfold wfUtf8 at hw; simp only [h1, h2, h3, h4, h5, if_true, if_false, Bool.and_eq_true, decide_eq_true_eq] at hw
-    refine ⟨rfl, ?_, 4, by omega, fun hc => by omega, ?_⟩
+    refine ⟨rfl, ?_, ?_⟩
     · rw [← hp]; exact boundary_lead pre b0 _ (not_cont_of_ge (by omega))
     · have := ih (pre ++ [b0, b1, b2, b3]) (by simp [hp]) hw.2
+      rw [utf8Len_4 (by omega)]
       simpa [List.append_assoc] using this
   | case8 pos b0 rest h1 h2 h3 hne =>
     intro pre hp hw
@@ -432,7 +460,7 @@ theorem chain_start {src : List Nat} {lo : Nat} {cs : List (Nat × Nat)} (h : Ch
   | cons x rest ih =>
     obtain ⟨p, c⟩ := x
     simp only [Chain] at h
-    obtain ⟨hp, hb, w, hw, _, hr⟩ := h
+    obtain ⟨hp, hb, hr⟩ := h
     subst hp
     have := ih hr
     exact ⟨by omega, hb, rfl⟩
@@ -444,28 +472,29 @@ def StB (src : List Nat) (lo : Nat) : StrSt → Prop
   | .uni bs => isCharBoundary src bs = true ∧ isCharBoundary src (bs + 1) = true ∧ bs + 1 ≤ lo
   | .hex bs _ _ => isCharBoundary src bs = true ∧ isCharBoundary src (bs + 1) = true ∧ bs + 1 ≤ lo
 
-/-- core of the lexer theorems: scanning a well-formed tiling, every error other than "unterminated
-    string" (whose label depends on where the caller says the literal started) and other than the
-    class `splitsChar` has a well-formed label -/
+/-- core of the lexer theorems (repaired code): scanning a well-formed tiling, every error other
+    than "unterminated string" (whose label depends on where the caller says the literal started)
+    has a well-formed label — the invalid-escape label now covers the whole character -/
 theorem scanString_label_wf' (src : List Nat) (start : Nat) :
     ∀ (cs : List (Nat × Nat)) (st : StrSt) (lo : Nat) (e : LexErr),
     Chain src lo cs → StB src lo st → scanString src.length start st cs = .error e →
-    e.splitsChar = false → e = .stringLiteral start ∨ WF src e.label := by
+    e = .stringLiteral start ∨ WF src e.label := by
   intro cs
   induction cs with
   | nil =>
-    intro st lo e hc hst h hcl
+    intro st lo e hc hst h
     have hl := chain_start hc
     cases st <;> simp [scanString] at h <;> subst h <;> simp only [StB] at hst
     · exact Or.inl rfl
     all_goals (refine Or.inr ?_; simp only [LexErr.label, WF]; exact ⟨by omega, by omega, hst.1, hst.2.1⟩)
   | cons x rest ih =>
-    intro st lo e hc hst h hcl
+    intro st lo e hc hst h
     obtain ⟨p, c⟩ := x
     simp only [Chain] at hc
-    obtain ⟨hp, hb, w, hw, hw1, hr⟩ := hc
+    obtain ⟨hp, hb, hr⟩ := hc
     subst hp
     have hn := chain_start hr
+    have hu1 := utf8Len_pos c
     cases st with
     | normal =>
       simp only [scanString] at h
@@ -473,32 +502,27 @@ theorem scanString_label_wf' (src : List Nat) (start : Nat) :
       · cases h
       · split at h
         · rename_i hc92
-          have : w = 1 := hw1 (by omega)
-          subst this
-          exact ih _ _ _ hr (by simp only [StB]; exact ⟨hb, hn.2.1, Nat.le_refl _⟩) h hcl
-        · exact ih _ _ _ hr (by simp [StB]) h hcl
+          subst hc92
+          have h1 : utf8Len 92 = 1 := by decide
+          rw [h1] at hn hr
+          exact ih _ _ _ hr (by simp only [StB]; exact ⟨hb, hn.2.1, Nat.le_refl _⟩) h
+        · exact ih _ _ _ hr (by simp [StB]) h
     | esc bs =>
       simp only [scanString] at h
       simp only [StB] at hst
       split at h
-      · exact ih _ _ _ hr (by simp [StB]) h hcl
+      · exact ih _ _ _ hr (by simp [StB]) h
       · split at h
-        · exact ih _ _ _ hr (by simp only [StB]; exact ⟨hst.1, hst.2.1, by omega⟩) h hcl
+        · exact ih _ _ _ hr (by simp only [StB]; exact ⟨hst.1, hst.2.1, by omega⟩) h
         · cases h
-          simp only [LexErr.splitsChar, decide_eq_false_iff_not, Nat.not_le] at hcl
-          have : w = 1 := hw1 hcl
-          subst this
-          exact Or.inr ⟨by simp [LexErr.label], by simp only [LexErr.label]; omega, hb, hn.2.1⟩
+          exact Or.inr ⟨by simp only [LexErr.label]; omega, by simp only [LexErr.label]; exact hn.1, hb, hn.2.1⟩
     | uni bs =>
       simp only [scanString] at h
       simp only [StB] at hst
       split at h
-      · exact ih _ _ _ hr (by simp only [StB]; exact ⟨hst.1, hst.2.1, by omega⟩) h hcl
+      · exact ih _ _ _ hr (by simp only [StB]; exact ⟨hst.1, hst.2.1, by omega⟩) h
       · cases h
-        simp only [LexErr.splitsChar, decide_eq_false_iff_not, Nat.not_le] at hcl
-        have : w = 1 := hw1 hcl
-        subst this
-        exact Or.inr ⟨by simp [LexErr.label], by simp only [LexErr.label]; omega, hb, hn.2.1⟩
+        exact Or.inr ⟨by simp only [LexErr.label]; omega, by simp only [LexErr.label]; exact hn.1, hb, hn.2.1⟩
     | hex bs n v =>
       simp only [scanString] at h
       simp only [StB] at hst
@@ -510,27 +534,23 @@ theorem scanString_label_wf' (src : List Nat) (start : Nat) :
           · exact hn.1
           · exact hn.2.1
         · split at h
-          · exact ih _ _ _ hr (by simp [StB]) h hcl
+          · exact ih _ _ _ hr (by simp [StB]) h
           · cases h
             refine Or.inr ⟨?_, ?_, hst.1, ?_⟩ <;> simp only [LexErr.label] <;> rw [hn.2.2]
             · omega
             · exact hn.1
             · exact hn.2.1
       · split at h
-        · exact ih _ _ _ hr (by simp only [StB]; exact ⟨hst.1, hst.2.1, by omega⟩) h hcl
+        · exact ih _ _ _ hr (by simp only [StB]; exact ⟨hst.1, hst.2.1, by omega⟩) h
         · cases h
-          simp only [LexErr.splitsChar, decide_eq_false_iff_not, Nat.not_le] at hcl
-          have : w = 1 := hw1 hcl
-          subst this
-          exact Or.inr ⟨by simp [LexErr.label], by simp only [LexErr.label]; omega, hb, hn.2.1⟩
-
+          exact Or.inr ⟨by simp only [LexErr.label]; omega, by simp only [LexErr.label]; exact hn.1, hb, hn.2.1⟩
 
 theorem scanString_label_wf (src : List Nat) (start : Nat)
     (hs0 : isCharBoundary src start = true) (hs1 : isCharBoundary src (start + 1) = true)
     (hs2 : start + 1 ≤ src.length) (cs : List (Nat × Nat)) (st : StrSt) (lo : Nat) (e : LexErr)
-    (hc : Chain src lo cs) (hst : StB src lo st) (h : scanString src.length start st cs = .error e)
-    (hcl : e.splitsChar = false) : WF src e.label := by
-  rcases scanString_label_wf' src start cs st lo e hc hst h hcl with h1 | h1
+    (hc : Chain src lo cs) (hst : StB src lo st) (h : scanString src.length start st cs = .error e) :
+    WF src e.label := by
+  rcases scanString_label_wf' src start cs st lo e hc hst h with h1 | h1
   · subst h1; exact ⟨by simp [LexErr.label], by simpa [LexErr.label] using hs2, hs0, hs1⟩
   · exact h1
 
